@@ -36,7 +36,7 @@ def gen_cases(rng, tier):
             cases.append({"kind": "pair", "sources": gen_sources(rng, rng.choice([0, 1, 3, 6]), eos_rate=0.12, big_rate=0.03), "verbose": rng.random() < 0.3})
         elif r < 0.7:
             q = rng.random()
-            base = {"spec": gen_third_party(rng, nsides=4, max_files=4)} if q < 0.7 else {"bundled": rng.choice(["fd", "sd"])}
+            base = {"spec": gen_third_party(rng, nsides=4, max_files=4)} if q < 0.55 else {"spec": gen_third_party(rng, is_fd=True, nsides=rng.choice([1, 2]), max_files=3), "with_source": rng.random() < 0.5} if q < 0.75 else {"bundled": rng.choice(["fd", "sd"])}
             if "spec" in base and not base["spec"]["is_fd"]:
                 base["sd_padding"] = rng.choice([0xFF, 0xFF, 0x00, 0xE5])
             cases.append(dict(base, kind="noop"))
@@ -46,7 +46,10 @@ def gen_cases(rng, tier):
             old = "" if rng.random() < 0.3 else rng.randbytes(ssz).hex()
             vals = [rng.randbytes(rng.choice([0, 1, 255, 256, 257, 300, 511, 512, 600, rng.randint(0, 600)])).hex() for _ in range(rng.choice([1, 2, 4]))]
             cases.append({"kind": "lib", "is_fd": is_fd, "old": old, "values": vals})
-    return cases, {"random": n}
+    for ns in (1, 2):
+        for ws in (False, True):
+            cases.append({"kind": "noop", "spec": gen_third_party(rng, is_fd=True, nsides=ns, max_files=2), "with_source": ws})
+    return cases, {"random": n, "1- and 2-sided emulator images": 4}
 
 
 def run_case(case, ctx):
@@ -127,12 +130,26 @@ def run_case(case, ctx):
                 nontrivial = any(t for t in truth)
             arch = "img" + ext_of(is_fd)
             cd.put(arch, raw0)
-            r = run_disk(ctx, is_fd, ["-r", arch], cd, timeout=120)
+            short = "spec" in case and case["spec"]["nsides"] < 4
+            extra, fs = [], []
+            if case.get("with_source"):
+                cd.put("new.dat", b"0123456789")
+                extra, fs = ["new.dat"], [[text_points("new.dat"), b"0123456789"]]
+            r = run_disk(ctx, is_fd, ["-r", arch] + extra, cd, timeout=120)
             after = cd.snapshot()
             raw1 = cd.get(arch)
-            m = dmodel_outcome(ctx.model.call("disk_add", is_fd, False, [], text_points(arch), raw0, []))
+            m = dmodel_outcome(ctx.model.call("disk_add", is_fd, False, fs, text_points(arch), raw0, [text_points(a) for a in extra]))
             dis = compare_action(r, m, cd, after, "no-op add")
-            if r.get("status") != 0 or r.get("exc") or raw1 is None:
+            if short:
+                # an emulator image embedding 1 or 2 sides is a valid image: whatever the tool does with it (refuse, or add), its length and boundaries never move
+                f.add("sides:%d" % case["spec"]["nsides"])
+                if raw1 is None or len(raw1) != len(raw0):
+                    bad = {"length changed": [len(raw0), None if raw1 is None else len(raw1)]}
+                elif not extra and raw1 != raw0:
+                    bad = {"load/save is not the identity on a short image": True}
+                elif extra and (r.get("status") != 0 or r.get("exc")) and raw1 != raw0:
+                    bad = {"a refused add modified the archive": True}
+            elif r.get("status") != 0 or r.get("exc") or raw1 is None:
                 bad = {"no-op add failed": [r.get("status"), r.get("exc"), r.get("msg")]}
             elif len(raw1) != len(raw0):
                 bad = {"length changed": [len(raw0), len(raw1)]}
